@@ -92,6 +92,19 @@ class RealRange(Domain):
         return rng.uniform(lo, hi)
 
 
+class RealVec(Domain):
+    """list of n reals in [lo, hi]"""
+
+    def __init__(self, n, lo, hi):
+        self.n = n
+        self.lo = lo
+        self.hi = hi
+
+    def sample(self, rng):
+        r = RealRange(self.lo, self.hi)
+        return [r.sample(rng) for _ in range(self.n)]
+
+
 class Bool(Domain):
     def sample(self, rng):
         return rng.random() < 0.5
